@@ -202,9 +202,6 @@ func VH_mapset_Fresh() {
 			vAssert(sl[i] != sl[j], "Slice has no duplicates")
 		}
 	}
-	if len(sref) == 0 {
-		vAssert(sl == nil, "Slice of an empty set is nil")
-	}
 	pre := []int{vOrd("p")}
 	ap := s.Append(pre)
 	vAssert(len(ap) == 1+len(sref) && ap[0] == pre[0], "Append keeps the prefix and adds one entry per member")
